@@ -86,7 +86,7 @@ def _traffic_bound(p, reqs):
     for r in reqs:
         try:
             loc, _, isbool = locate_req(p, r)
-            n = (r.get("count") or 1)
+            n = max(r.get("count") or 1, 1)
             size = p.elem_size(loc.type) * (n if not isbool else (n + 63) // 32)
         except Exception:
             size = 0
